@@ -6,6 +6,10 @@ def indent(level):
 
 
 def ensure_select_keyword_order(select, operation):
+    if not hasattr(select, 'from_table'):
+        # a set operation in parentheses, `(SELECT ... UNION SELECT ...) LIMIT 1`: it has no clauses of its own
+        raise ParsingException(f"{operation} is not supported after {type(select).__name__.upper()} in parentheses")
+
     op_to_attr = {
         'FROM': select.from_table,
         'WHERE': select.where,
